@@ -246,7 +246,7 @@ structure StageA where
   validCols : List Nat
   eqs : List PairEq
   system : System
-deriving Repr
+deriving Repr, DecidableEq
 
 def stageA (o : Opts) (l : List Prec) : StageA :=
   let sel := selected o.cutoff l
